@@ -91,3 +91,55 @@ func VHarness_C02_RevisionForRequest() {
 		}
 	}
 }
+
+// VHarness_C02_AllowList: the per-connection attachment allow-list. A (document, digest) pair is downloadable exactly
+// while at least one revision that references it is being sent on this connection: histories of "start sending a
+// revision" / "revision acknowledged" over revisions that share digests, under both key schemes.
+func VHarness_C02_AllowList() {
+	type rev struct {
+		doc  string
+		atts []AttachmentStorageMeta
+	}
+	x := AttachmentStorageMeta{digest: "sha1-xxxxxxxxxxxxxxxxxxxxxxxxxxx=", version: 2, name: "x"}
+	y := AttachmentStorageMeta{digest: "sha1-yyyyyyyyyyyyyyyyyyyyyyyyyyy=", version: 2, name: "y"}
+	revs := []rev{{"d1", []AttachmentStorageMeta{x}}, {"d1", []AttachmentStorageMeta{x, y}}, {"d2", []AttachmentStorageMeta{x}}}
+	proto := CBMobileReplicationV2
+	if vNondetBool() {
+		proto = CBMobileReplicationV3
+	}
+	bsc := &BlipSyncContext{loggingCtx: context.Background()}
+	var inflight [3]int
+	k := vParam("ops", 4)
+	for op := 0; op < k; op++ {
+		r := vNondetRange(0, 2)
+		if vNondetBool() {
+			bsc.addAllowedAttachments(revs[r].doc, "1-a", revs[r].atts, proto)
+			inflight[r]++
+		} else {
+			vAssume(inflight[r] > 0)
+			bsc.removeAllowedAttachments(revs[r].doc, revs[r].atts, proto)
+			inflight[r]--
+		}
+		total := 0
+		for _, doc := range []string{"d1", "d2"} {
+			for _, a := range []AttachmentStorageMeta{x, y} {
+				want := 0
+				for i, rv := range revs {
+					for _, ra := range rv.atts {
+						if ra.digest == a.digest && (rv.doc == doc || proto < CBMobileReplicationV3) {
+							want += inflight[i]
+						}
+					}
+				}
+				got := bsc.allowedAttachment(allowedAttachmentKey(doc, a.digest, proto))
+				vAssert((got.counter > 0) == (want > 0), "an attachment is downloadable exactly while a revision referencing it is in flight")
+				vAssert(got.counter == want, "the allow-list counts the in-flight revisions that reference the attachment")
+				total += want
+			}
+		}
+		if total == 0 {
+			vCover("allow-list-empty")
+			vAssert(len(bsc.allowedAttachments) == 0, "nothing stays downloadable after every revision has been acknowledged")
+		}
+	}
+}
